@@ -11,11 +11,15 @@
 (* the invariants named in the comments.                                   *)
 (***************************************************************************)
 EXTENDS Integers, Sequences, TLC, Json, IOUtils
-CONSTANTS Versions, Modes, NBoost, Stride, Offset
+CONSTANTS Versions, Modes, NBoost, Stride, Offset,
+          UseDiscr     \* also the settings found by the value sweep (harness command c01-probe): one or two scalar fields of the
+                       \* generator input fixed to a value that steers the layout of the block (IOEnv.DISCR, one JSON record per line)
 VARIABLES cfg, phase
 TypeList == ndJsonDeserialize(IOEnv.TYPES)          \* one JSON string per line
 Picked == {k \in 1..Len(TypeList) : (k - 1) % Stride = Offset % Stride}
-Configs == {[type |-> TypeList[k], ver |-> v, mode |-> m, boost |-> b] : k \in Picked, v \in Versions, m \in Modes, b \in {-1} \cup (0..(NBoost - 1))}
+Discr == IF UseDiscr THEN ndJsonDeserialize(IOEnv.DISCR) ELSE <<>>
+Configs == {[type |-> TypeList[k], ver |-> v, mode |-> m, boost |-> b, ov |-> <<>>] : k \in Picked, v \in Versions, m \in Modes, b \in {-1} \cup (0..(NBoost - 1))}
+           \cup {[type |-> Discr[i].type, ver |-> Discr[i].ver, mode |-> Discr[i].mode, boost |-> -1, ov |-> Discr[i].ov] : i \in 1..Len(Discr)}
 Phases == <<"Synth", "SaveRaw0", "Load0", "SaveRaw1", "Load1", "SaveRaw2", "SaveRaw3", "DefaultChain", "Done">>
 \*            |          |           |        |           |        |           |          '- G3 = G2, every G well formed
 \*            |          |           |        |           |        |           '- F3 = F2 (repeat save, C02)
